@@ -1,9 +1,12 @@
 (** Extraction of the C08 model (ExtrOcamlBasic only; N/Z/positive/nat stay inductive). *)
 Require Extraction.
 Require Import ExtrOcamlBasic.
-From Kardia Require Import C08.Model.
+From Kardia Require Import C08.Model C08.ModelSnap.
 Extraction Language OCaml.
 Set Extraction KeepSingleton.
 From Kardia Require Import Base.Anchor.
 Extraction "../ocaml/C08/model.ml" Anchor.anchor Model.new_state Model.step Model.run Model.copy Model.commit
-  Model.read Model.ask Model.fempty Model.ripemd.
+  Model.read Model.ask Model.fempty Model.ripemd
+  ModelSnap.snew_state ModelSnap.sstep ModelSnap.scommit ModelSnap.scopy ModelSnap.tree_update
+  ModelSnap.snap_update ModelSnap.snap_cap ModelSnap.snap_cap_regs ModelSnap.snap_account ModelSnap.snap_storage
+  ModelSnap.empty_disk.
